@@ -159,7 +159,76 @@ func rawOptsArea(r *Rng, valid bool) []byte {
 // valid packets, and malformed variants (truncation, length perturbation,
 // cookie flips, splices).
 func genWire4(r *Rng) ([]byte, string) {
-	switch r.Intn(11) {
+	switch r.Intn(13) {
+	case 12:
+		// shorter than header + cookie, with the magic cookie where a decoder that has
+		// lost step - a read that failed for lack of bytes does not advance, the next,
+		// smaller one succeeds - would find it: behind the last header field that still
+		// fits (offsets 28, 44, 108), at the end, or anywhere; then nothing, pads, End
+		// (seeded change C04-14: the sticky read error checked only on a cookie mismatch)
+		n := r.Pick([]int{32, 36, 43, 48, 51, 64, 107, 112, 116, 200, 235, 236, 238, 239, r.Range(4, 239)})
+		b := r.Bytes(n)
+		if r.Chance(1, 2) {
+			for i := range b {
+				b[i] = 0
+			}
+		}
+		off := r.Pick([]int{28, 28, 44, 44, 108, 108, n - 4, r.Range(0, n-4)})
+		if off+4 > n {
+			off = n - 4
+		}
+		copy(b[off:], []byte{99, 130, 83, 99})
+		tail := b[off+4:]
+		switch r.Intn(3) {
+		case 0:
+			b = b[:off+4]
+		case 1:
+			for i := range tail {
+				tail[i] = 0
+			}
+			if len(tail) > 0 {
+				tail[r.Intn(len(tail))] = 255
+			}
+		}
+		return b, "short-with-cookie"
+	case 11:
+		// RFC 2131 option overload (option 52 = 1, 2 or 3) with the file and/or sname
+		// field holding a well-formed option run: the library does NOT implement
+		// overload - the fields are names, cut at the first NUL, and no option comes out
+		// of them (seeded change C04-13)
+		p := genPkt4(r, true)
+		b := p.ToBytes()
+		fill := func(off, size int) {
+			area := rawOptsArea(r, true)
+			if r.Chance(1, 2) {
+				area = []byte{12, 2, 'h', 'i', 255}
+			}
+			if len(area) > size {
+				area = append(area[:size-1:size-1], 255)
+			}
+			for i := off; i < off+size; i++ {
+				b[i] = 0
+			}
+			copy(b[off:], area)
+		}
+		ov := 1 + r.Intn(3)
+		if ov&1 != 0 || r.Chance(1, 4) {
+			fill(108, 128)
+		}
+		if ov&2 != 0 || r.Chance(1, 4) {
+			fill(44, 64)
+		}
+		// option 52 in front of whatever options the packet has
+		out := append([]byte{}, b[:240]...)
+		out = append(out, 52, 1, byte(ov))
+		if r.Chance(1, 8) {
+			out[len(out)-1] = byte(r.Intn(256))
+		}
+		rest := b[240:]
+		for len(rest) > 1 && rest[len(rest)-1] == 0 {
+			rest = rest[:len(rest)-1]
+		}
+		return append(out, rest...), "overload-option"
 	case 10:
 		// a whole header field (or the cookie) replaced by a sentinel pattern: all
 		// zero, all ones, its own bytes reversed, or one byte of it changed - a decoder
